@@ -243,6 +243,14 @@ def run_textmut(case):
         raise Violation("totality", f"{tname}: from_text accepted {text!r}; its wire {mw.hex()} is rejected: {e!r}", "wire-rejected:" + tname)
     if back != m:
         raise Violation("roundtrip", f"{tname}: text {text!r} -> record -> wire -> record differs", "text-wire:" + tname)
+    if (tname == "TKEY" and len(m.key) == 0) or (tname == "TSIG" and len(m.mac) == 0):
+        # same scoping as the grammar's "text-lossy" flag: the ad-hoc text forms of these two meta
+        # types cannot spell an empty key / MAC (base64 decoding of a junk token yields one)
+        try:
+            m.to_text()
+        except Exception as e:
+            raise Violation("totality", f"{tname}: accepted {text!r} but to_text() raised {type(e).__name__}: {e}", "to_text:" + tname)
+        return {"nontrivial": False, "classes": ["mut-accepted", "text-lossy"]}
     try:
         t2 = m.to_text()
         m2 = dns.rdata.from_text(rdclass, rdtype, t2)
